@@ -77,6 +77,8 @@ fn dispatch(session: &mut Session, cmd: &J) -> Result<J, String> {
 		"assemble" => crate::container::op_assemble(cmd),
 		"reader" => crate::container::op_reader(cmd),
 		"big_roundtrip" => crate::container::op_big_roundtrip(cmd),
+		"so_ser" => op_so_ser(session, cmd),
+		"so_de" => op_so_de(session, cmd),
 		"schema_graph" => {
 			let b = session.schema(&cmd["schema"]);
 			Ok(match b {
@@ -281,4 +283,94 @@ fn op_ser_de(session: &mut Session, cmd: &J) -> Result<J, String> {
 	bytes.extend_from_slice(&suffix);
 	let de = de_bytes(schema, &bytes, cmd)?;
 	Ok(json!({"res": "ok", "bytes": ser["bytes"], "de": de}))
+}
+
+// ---------------------------------------------------------------------------------------------
+// single-object encoding
+// ---------------------------------------------------------------------------------------------
+fn op_so_ser(session: &mut Session, cmd: &J) -> Result<J, String> {
+	let schema = match session.schema(&cmd["schema"]) {
+		Ok(s) => s,
+		Err(e) => return Ok(json!({"res": "schema_err", "msg": e})),
+	};
+	let pres = P::from_json(&cmd["pres"])?;
+	let mut config = SerializerConfig::new(&schema.schema);
+	let via_writer = cmd.get("via_writer").and_then(|b| b.as_bool()).unwrap_or(false);
+	let r = if via_writer {
+		serde_avro_fast::to_single_object(&pres, Vec::new(), &mut config)
+	} else {
+		serde_avro_fast::to_single_object_vec(&pres, &mut config)
+	};
+	Ok(match r {
+		Ok(bytes) => json!({"res": "ok", "bytes": bytes_json(&bytes), "fp": bytes_json(schema.schema.rabin_fingerprint())}),
+		Err(e) => json!({"res": "err", "msg": e.to_string()}),
+	})
+}
+
+thread_local! {
+	static CAPTURE_CTX: RefCell<Option<*const Ctx<'static>>> = RefCell::new(None);
+}
+
+/// A `Deserialize` type for APIs that take `T: Deserialize` rather than a seed: captures through the context
+/// installed in `CAPTURE_CTX` for the duration of the call.
+struct Captured(J);
+impl<'de> serde::Deserialize<'de> for Captured {
+	fn deserialize<D: serde::Deserializer<'de>>(d: D) -> Result<Self, D::Error> {
+		let ptr = CAPTURE_CTX.with(|c| *c.borrow()).expect("capture context not installed");
+		// SAFETY: the pointer is installed by `with_capture_ctx` below for a context that outlives the call
+		let ctx: &Ctx<'_> = unsafe { &*ptr };
+		Cap::root(ctx).deserialize(d).map(Captured)
+	}
+}
+
+fn with_capture_ctx<T>(ctx: &Ctx<'_>, f: impl FnOnce() -> T) -> T {
+	CAPTURE_CTX.with(|c| *c.borrow_mut() = Some(ctx as *const Ctx<'_> as *const Ctx<'static>));
+	let r = f();
+	CAPTURE_CTX.with(|c| *c.borrow_mut() = None);
+	r
+}
+
+fn op_so_de(session: &mut Session, cmd: &J) -> Result<J, String> {
+	let schema = match session.schema(&cmd["schema"]) {
+		Ok(s) => s,
+		Err(e) => return Ok(json!({"res": "schema_err", "msg": e})),
+	};
+	let bytes = bytes_of(&cmd["bytes"])?;
+	let opts = de_opts(cmd);
+	let mut ctx = Ctx::new(&schema.graph);
+	ctx.hints = opts.hints;
+	ctx.shape = opts.shape.clone();
+	let reader = &cmd["reader"];
+	let kind = reader.get("kind").and_then(|k| k.as_str()).unwrap_or("slice");
+	Ok(match kind {
+		"slice" => {
+			ctx.input = (bytes.as_ptr() as usize, bytes.as_ptr() as usize + bytes.len());
+			let r = with_capture_ctx(&ctx, || serde_avro_fast::from_single_object_slice::<Captured>(&bytes, &schema.schema));
+			match r {
+				Ok(v) => json!({"res": "ok", "value": v.0, "borrowed_outside": ctx.stats.borrow().borrowed_outside}),
+				Err(e) => de_err_obs(e.to_string()),
+			}
+		}
+		_ => {
+			let sched: Vec<usize> = reader
+				.get("sched")
+				.and_then(|s| s.as_array())
+				.map(|a| a.iter().map(|x| x.as_u64().unwrap_or(1) as usize).collect())
+				.unwrap_or_default();
+			let mut cr = ChunkedReader::new(bytes.clone(), sched);
+			let r = with_capture_ctx(&ctx, || serde_avro_fast::from_single_object_reader::<_, CapturedOwned>(&mut cr, &schema.schema));
+			match r {
+				Ok(v) => json!({"res": "ok", "value": v.0, "consumed": cr.consumed()}),
+				Err(e) => de_err_obs(e.to_string()),
+			}
+		}
+	})
+}
+
+/// same, for `DeserializeOwned` bounds
+struct CapturedOwned(J);
+impl<'de> serde::Deserialize<'de> for CapturedOwned {
+	fn deserialize<D: serde::Deserializer<'de>>(d: D) -> Result<Self, D::Error> {
+		Captured::deserialize(d).map(|c| CapturedOwned(c.0))
+	}
 }
